@@ -295,7 +295,7 @@ def check_objective(res: Result, proj: Project, rule: str = "X3"):
 
 def _feature(cons, name: str):
     for k, v in cons.attrs["_att"].items():
-        if name in repr(k) or (hasattr(k, "name") and k.name == name):
+        if name in repr(k) or getattr(k, "member", None) == name:
             return v
     # enum members are evaluated to their value expression: compare with the class attribute
     return cons.attrs["_att"].get({"KEMENY_SCORE": "kemeny score:", "NECESSARILY_OPTIMAL": "necessarily optimal:"}[name])
